@@ -76,9 +76,9 @@ theorem factories_pinned :
 
 /-- The tokenizer is wired to the chunker and the strategy factory. -/
 theorem tokenizer_pinned :
-    (Generated.wiring.lookup "tokenizer").map (·.2.1) = some ["@tokenChunker", "@tokenStrategyFactory"] ∧
+    Generated.argsAre ((Generated.wiring.lookup "tokenizer").map (·.2.1)) ["@tokenChunker", "@tokenStrategyFactory"] = true ∧
     (Generated.wiring.lookup "patternResolver").map (·.2.1) = some ["@tokenizer"] ∧
-    (Generated.wiring.lookup "fnRegisterer").map (·.2.1) = some ["@tokenStrategyFactory", "@imports"] := by decide
+    Generated.argsAre ((Generated.wiring.lookup "fnRegisterer").map (·.2.1)) ["@tokenStrategyFactory", "@imports"] = true := by decide
 
 /-- what `GetParam` yields for a string parameter: tokenise the pattern (functions registered in
 `fns`), then run the emitted providers against the run-time environment `env` -/
